@@ -14,6 +14,7 @@ VARIABLES l, bad
 ExplainF(e) ==
    LET opc == MilOPc(e.k, e.op) IN
    FirstBad(<< <<~e.err, "an f-function returned an error or panicked">>,
+               <<"intact" \notin DOMAIN e \/ e.intact, "a buffer of the caller (K, OP, RAND, SQN, AMF or an OPc returned earlier) was modified by the call">>,
                <<e.opc = opc, "OPc differs: expected " \o Str(opc)>>,
                <<e.macA = MilF1(e.k, opc, e.rand, e.sqn, e.amf), "f1 (MAC-A) differs">>,
                <<e.macS = MilF1Star(e.k, opc, e.rand, e.sqn, e.amf), "f1* (MAC-S) differs">>,
